@@ -61,9 +61,9 @@ fn c03() -> PropSpec {
         check: check_c03,
         signature: sig_c03,
         rule: "a hostile/buggy peer and a mutating network against a client in the middle of real conversations: structure-aware faults on valid in-flight messages (bit/byte flips, truncation, extension, header/attribute/nested length edits, multi-byte UTF-8 and quoting characters injected into string attributes, spliced attributes), hostile server strings around the nonce-cookie offsets, random and STUN-like injected bytes; every call into the client is under catch_unwind, every hostile datagram is also decoded in all 16 decoder configurations (size and prefix relations), through get_input_text and through the stream reassembler in a seeded chunking; rejected hostile buffers are additionally removed in a twin run to show the client remained usable; distinct = distinct (credential-state tag, fault kind, library decode outcome, client outcome, outstanding requests); trivial (not counted) = bytes undecodable at the header",
-        quick_runs: 150_000,
-        thorough_runs: 4_000_000,
-        required_probes: &[],
+        quick_runs: 200000,
+        thorough_runs: 4000000,
+        required_probes: &["unparseable_buffer_delivered", "rejected_buffer", "retry_after_401"],
         extra: None,
         run: None,
         assumptions: COMMON_ASSUMPTIONS,
@@ -130,8 +130,8 @@ fn c04() -> PropSpec {
         check: check_c04,
         signature: sig_c04,
         rule: "authenticated traffic (short-term, long-term MD5 and SHA-256 keys over generated user/realm/password; tails MI, SHA256, MI+SHA256, each with and without FINGERPRINT) between the real client and the reference server over a corrupting channel; systematic part: for sampled in-flight messages whose MAC verifies independently, the untampered message must be accepted by decode(with_key, with_validation) and validate(get_input_text), a key derived from a password one character off must be rejected, and every single-bit fault in every byte of the protected prefix (except the two header-length bytes) and of the MAC is applied in turn and must never be accepted as authenticated (real vs reference verifier, differential); distinct = distinct (algorithm, key kind, attribute shape, fault region, verdicts)",
-        quick_runs: 60_000,
-        thorough_runs: 2_000_000,
+        quick_runs: 300000,
+        thorough_runs: 3000000,
         required_probes: &[],
         extra: Some(crate::oracle_tap::extra_c04),
         run: None,
@@ -183,9 +183,9 @@ fn c09() -> PropSpec {
         check: check_c09,
         signature: sig_c09,
         rule: "on-path splice faults: 1-4 attributes drawn from {ordinary, unknown, MI, MI-SHA256, FINGERPRINT}, each with right or wrong MAC/CRC for its position, appended to valid in-flight messages with every base tail; at the wire tap the decoded attribute list of every decoder configuration is compared with an independent 3-flag admission automaton (and the validation verdict with the independently verified admitted attributes), and what the client delivers must contain exactly the admitted attributes; systematic part: every suffix up to length 3 (quick) / 4 (thorough) over 7 tokens appended to each of the 8 base tails; non-trivial = the message carries at least one inadmissible attribute; distinct = distinct sequence of attribute kinds x client verdict; coverage of the 32 (automaton state, next kind) pairs is required",
-        quick_runs: 150_000,
-        thorough_runs: 4_000_000,
-        required_probes: &[],
+        quick_runs: 800000,
+        thorough_runs: 16000000,
+        required_probes: &["attributes_after_fingerprint", "inadmissible_attribute_on_the_wire"],
         extra: Some(crate::oracle_tap::extra_c09),
         run: None,
         assumptions: COMMON_ASSUMPTIONS,
@@ -238,9 +238,9 @@ fn c05() -> PropSpec {
         check: check_c05,
         signature: sig_c05,
         rule: "seeded random plans (1-5 requests, loss/dup/delay/reorder/replay/corruption, late/early timers, restarts, every mechanism, both transports); non-trivial = the history contains a delivery for a transaction id after that transaction's final outcome; distinct = distinct abstract history (hist-sig)",
-        quick_runs: 400_000,
-        thorough_runs: 12_000_000,
-        required_probes: &[],
+        quick_runs: 2000000,
+        thorough_runs: 40000000,
+        required_probes: &["late_response_after_final", "response_after_timeout_failure", "duplicate_buffer_delivered", "client_restart"],
         extra: None,
         run: None,
         assumptions: COMMON_ASSUMPTIONS,
@@ -333,9 +333,9 @@ fn c06() -> PropSpec {
         check: check_c06,
         signature: sig_c06,
         rule: "seeded random plans (Rc 1-10, Rm 1-32, RTO 20ms-3s, 1-4 requests sharing the timer; timer calls exact/early/late/coalesced/stalled; silent or late server; both transports); distinct = distinct (Rc, Rm, lateness class per timer call, peak concurrency, transport); trivial (not counted) = single request, exact timers, default configuration",
-        quick_runs: 400_000,
-        thorough_runs: 12_000_000,
-        required_probes: &[],
+        quick_runs: 3000000,
+        thorough_runs: 60000000,
+        required_probes: &["timer_skipped_slots", "late_call_beyond_deadline", "two_expiries_served_by_one_call", "timer_call_before_any_expiry", "timer_call_late"],
         extra: None,
         run: None,
         assumptions: COMMON_ASSUMPTIONS,
@@ -398,9 +398,9 @@ fn c11() -> PropSpec {
         check: check_c11,
         signature: sig_c11,
         rule: "seeded random plans (2-5 requests started at different instants, responses/indications/rejected buffers/timer calls of arbitrary lateness, both transports, controller follows the documented contract literally); non-trivial = at least two concurrent requests and the notifications switch back to a transaction named earlier (interleaving expiries); distinct = distinct abstract history",
-        quick_runs: 400_000,
-        thorough_runs: 12_000_000,
-        required_probes: &[],
+        quick_runs: 2500000,
+        thorough_runs: 50000000,
+        required_probes: &["two_expiries_served_by_one_call", "notification_zero_overdue_at_send", "three_or_more_concurrent_requests", "timer_call_late"],
         extra: None,
         run: None,
         assumptions: COMMON_ASSUMPTIONS,
@@ -475,9 +475,9 @@ fn c12() -> PropSpec {
         check: check_c12,
         signature: sig_c12,
         rule: "seeded random walks (limits 0-4 and 10, 2-40 application sends mixed with indications, responses of every kind, rejected buffers, expiries; then a capacity-fill probe at quiescence); non-trivial = some send was refused or attempted after an earlier request ended on a failure/retry path; distinct = distinct (limit, sequence of (count before, refused), sequence of final-outcome kinds)",
-        quick_runs: 150_000,
-        thorough_runs: 4_000_000,
-        required_probes: &[],
+        quick_runs: 400000,
+        thorough_runs: 8000000,
+        required_probes: &["refused_at_limit", "time_out_failure", "retry_after_401", "time_out_reported_as_protection_violated"],
         extra: None,
         run: None,
         assumptions: COMMON_ASSUMPTIONS,
@@ -486,8 +486,25 @@ fn c12() -> PropSpec {
 
 // ---- C07 -------------------------------------------------------------------------------------
 
+fn fresh_probe(prop: &'static str, l: &Ledger) -> Option<Violation> {
+    let (n, last) = oracle_tx::fresh_probe_failure(l)?;
+    Some(Violation {
+        prop,
+        key: format!("{}/fresh-request-not-delivered-after-faults-stopped({},last={})", prop, crate::world::mech_to_str(&l.cfg.mech), last),
+        step: l.steps.len().saturating_sub(1),
+        detail: format!(
+            "after faults stopped (honest server, exact timers, perfect network, fresh server session) a new request was not delivered within 3 exchanges: {} exchange(s), last outcome {}",
+            n, last
+        ),
+    })
+}
+
 fn check_c07(l: &Ledger, _e: &[(String, String)], _s: &PropSpec) -> Vec<Violation> {
-    oracle_cred::check_c07(l)
+    let mut v = oracle_cred::check_c07(l);
+    if matches!(l.cfg.mech, crate::server::Mech::ShortTerm(_)) {
+        v.extend(fresh_probe("C07", l));
+    }
+    v
 }
 
 /// Reply-class sequence per transaction: for every response/indication handed to the client, the class of
@@ -552,13 +569,13 @@ fn c07() -> PropSpec {
         tag: 7,
         level: "exploration",
         profile: p,
-        opts: RunOpts::default(),
+        opts: RunOpts { probe_fresh_request: true, ..Default::default() },
         check: check_c07,
         signature: sig_c07,
         rule: "seeded random plans with short-term credentials (algorithm preconfigured to MI / SHA256 or left to be learned; server replies per request drawn from {valid MI, valid SHA256, both, none, corrupted MAC, MAC under another password, the non-agreed algorithm, duplicates} for success/error responses and indications; both transports; interleaved with timers and further requests); non-trivial = at least two replies reached the client; distinct = distinct sequence of (message class, MI verdict, SHA256 verdict, client reaction) x transport x initial algorithm",
-        quick_runs: 300_000,
-        thorough_runs: 8_000_000,
-        required_probes: &[],
+        quick_runs: 1500000,
+        thorough_runs: 30000000,
+        required_probes: &["short_term_algorithm_learned", "both_integrity_in_response", "time_out_reported_as_protection_violated", "protection_violated_immediately(reliable)", "indication_delivered", "indication_rejected", "fresh_request_delivered_after_faults_stopped"],
         extra: None,
         run: None,
         assumptions: COMMON_ASSUMPTIONS,
@@ -568,7 +585,11 @@ fn c07() -> PropSpec {
 // ---- C08 -------------------------------------------------------------------------------------
 
 fn check_c08(l: &Ledger, _e: &[(String, String)], _s: &PropSpec) -> Vec<Violation> {
-    oracle_cred::check_c08(l)
+    let mut v = oracle_cred::check_c08(l);
+    if l.cfg.mech == crate::server::Mech::LongTerm {
+        v.extend(fresh_probe("C08", l));
+    }
+    v
 }
 
 fn sig_c08(l: &Ledger) -> Vec<u64> {
@@ -619,13 +640,13 @@ fn c08() -> PropSpec {
         tag: 8,
         level: "exploration",
         profile: p,
-        opts: RunOpts::default(),
+        opts: RunOpts { probe_fresh_request: true, ..Default::default() },
         check: check_c08,
         signature: sig_c08,
         rule: "seeded random conversations with long-term credentials (up to 5 application requests x up to 4 retries; server behaviours drawn per request from {401 with/without PASSWORD-ALGORITHMS, anonymity bit, plain or cookie nonce; 438 with new nonce; authenticated success; unauthenticated / wrongly keyed / wrong-kind success; other error codes with and without integrity; unsupported algorithm list; missing realm/nonce/error-code}; application-supplied credential attributes; both transports; network faults on top); every request the client emits after a challenge is run through an independent RFC 8489 9.2.4 acceptance predicate; non-trivial = at least two responses reached the client; distinct = distinct sequence of (class, error code, integrity attrs, algorithms offered, client reaction) x transport",
-        quick_runs: 300_000,
-        thorough_runs: 8_000_000,
-        required_probes: &[],
+        quick_runs: 800000,
+        thorough_runs: 16000000,
+        required_probes: &["retry_after_401", "retry_after_438", "long_term_challenge_in_mid_session", "do_not_retry", "fresh_request_delivered_after_faults_stopped"],
         extra: None,
         run: None,
         assumptions: COMMON_ASSUMPTIONS,
@@ -681,9 +702,9 @@ fn c10() -> PropSpec {
         check: check_c10,
         signature: sig_c10,
         rule: "codec half: for sampled in-flight messages carrying FINGERPRINT (built by the real client and by the reference server) the independent CRC-32 must equal the attribute and every single-bit fault at every bit position plus four byte-substitution classes (0x00, 0xFF, +1, pseudo-random) at every byte are applied in turn; the altered bytes must never be accepted as carrying a valid FINGERPRINT (validate(get_input_text), decode(with_validation)); client half: seeded random plans with a fingerprint-configured client under every mechanism; responses and indications arrive with valid, corrupted (bit/byte/length faults in flight), absent or spliced FINGERPRINT; distinct = distinct (fault kind, message attribute shape, mechanism, independent CRC verdict, client verdict, class)",
-        quick_runs: 300_000,
-        thorough_runs: 6_000_000,
-        required_probes: &[],
+        quick_runs: 1500000,
+        thorough_runs: 30000000,
+        required_probes: &["rejected_buffer", "indication_rejected", "attributes_after_fingerprint"],
         extra: Some(crate::oracle_tap::extra_c10),
         run: None,
         assumptions: COMMON_ASSUMPTIONS,
@@ -733,9 +754,9 @@ fn c13() -> PropSpec {
         check: check_c13,
         signature: sig_c13,
         rule: "wire tap on everything the client emits along seeded random plans (all mechanisms and credential states, fingerprint on/off, application lists of 1-5 attributes in any order with duplicates and pre-populated USERNAME/USERHASH/REALM/NONCE/PASSWORD-ALGORITHM(S)/MI/MI-SHA256/FINGERPRINT); non-trivial = non-empty application list; distinct = distinct (application list shape, credential state tag, fingerprint setting, class)",
-        quick_runs: 300_000,
-        thorough_runs: 8_000_000,
-        required_probes: &[],
+        quick_runs: 2000000,
+        thorough_runs: 40000000,
+        required_probes: &["indication_sent", "short_term_algorithm_learned", "retry_after_401", "retry_after_438"],
         extra: None,
         run: None,
         assumptions: COMMON_ASSUMPTIONS,
@@ -794,9 +815,9 @@ fn c15() -> PropSpec {
         check: check_c15,
         signature: sig_c15,
         rule: "seeded random histories on unreliable transport (4-120 transactions per run, response delays from microseconds to beyond the first retransmission, some completed by 401/Retry, idle gaps and stalls drawn around 600 s, arbitrary configured RTO and granularity); after every send and every response the client's RTO (H2) and the first interval announced through the public API are compared with a double-precision RFC 6298 reference within 1e-5 relative + 1 us; non-trivial = at least 3 samples and at least one of {a retransmitted transaction completed, a gap within 1 s of 600 s, granularity dominating 4*RTTVAR}; distinct = distinct (sample count, those counters, Rc, Rm, configured RTO)",
-        quick_runs: 60_000,
-        thorough_runs: 1_500_000,
-        required_probes: &[],
+        quick_runs: 250000,
+        thorough_runs: 5000000,
+        required_probes: &["timer_call_late", "time_out_failure"],
         extra: None,
         run: None,
         assumptions: COMMON_ASSUMPTIONS,
@@ -823,8 +844,8 @@ fn c16() -> PropSpec {
         check: check_custom,
         signature: sig_custom,
         rule: "streams of 1-3 generated STUN packets (0-1000 attribute bytes each, zero-length messages included, optionally one damaged header) under two seeded random chunkings each (empty and one-byte chunks, cuts inside the first or a later header, chunks spanning packets, byte-by-byte), buffer sizes from 24 bytes below to 64 above the largest packet; every call of the real StunPacketDecoder is compared with an independent model; systematic part: every 1- and 2-cut chunking of generated streams up to 110 (quick) / 300 (thorough) bytes; non-trivial = at least one cut; distinct = distinct (set of cut position classes relative to header/packet boundaries, number of packets, buffer slack sign, damaged header, which packets are zero-length)",
-        quick_runs: 1_500_000,
-        thorough_runs: 40_000_000,
+        quick_runs: 6000000,
+        thorough_runs: 120000000,
         required_probes: &[],
         extra: Some(crate::stream::extra_exhaustive),
         run: Some(crate::stream::run_stream),
@@ -868,9 +889,9 @@ fn c17() -> PropSpec {
         check: check_c17,
         signature: sig_c17,
         rule: "seeded random plans in which buffers of every rejected kind (undecodable, request class, unknown id, finished id, bad/missing fingerprint, failed authentication to be ignored, refused indication) land at arbitrary positions of otherwise ordinary histories; each run is executed a second time with exactly the rejected deliveries turned into drops and the two abstract histories are compared step by step (twin run); distinct = distinct (rejection kind, credential-state tag and number of outstanding requests at insertion, transport)",
-        quick_runs: 250_000,
-        thorough_runs: 6_000_000,
-        required_probes: &[],
+        quick_runs: 500000,
+        thorough_runs: 10000000,
+        required_probes: &["rejected_buffer", "indication_rejected", "response_for_unknown_id", "late_response_after_final", "unparseable_buffer_delivered"],
         extra: None,
         run: None,
         assumptions: COMMON_ASSUMPTIONS,
